@@ -34,7 +34,7 @@ SKY_VERTS = [
     [[266.0, 266.5, 266.6, 266.3, 265.9], [-29.2, -29.2, -28.9, -28.7, -28.9]],
     [[150.0, 150.1, 150.05], [2.0, 2.0, 2.3]],
 ]
-TEXTS = ['hello', 'Region A', 'x', 'a b c', 'M31', '']
+TEXTS = ['hello', 'Region A', 'x', 'a b c', 'M31', '', 'Hello', 'hello ']
 
 PIXEL_CLASSES = {
     'CirclePixelRegion': [('center', 'pixpos'), ('radius', 'size')],
